@@ -269,7 +269,12 @@ def config_spec(rng, naming=None, code=None, bus=None, nvals=None):
             continue
         seen.add((k, v))
         ents.append([k, v, rbytes(rng, rng.choice([8, 9, 12, 16, 24, 40])).hex()])
-    naming = rng.choice(["full", "full", "name-only", "none", "dev", "partial", "both"]) if naming is None else naming
+    naming = rng.choice(["full", "full", "name-only", "none", "dev", "partial", "both", "dev-noname"]) if naming is None else naming
+    if naming == "dev-noname":
+        # device-settings version only: neither customer id nor a device-settings name
+        ents.append([0x0620, 0x04, bytes([rng.randrange(100)]).hex()])
+        if rng.random() < 0.5:
+            ents.append([0x0620, 0x03, ""])
     if naming == "both":
         # project AND device settings identification, different versions
         pv = rng.randrange(100)
